@@ -86,13 +86,59 @@ def check(ctx, recs):
         budget -= 1
         ctx.count("oracle:" + guard)
         tol = 1e-9 if guard == "exact" else 1e-4
+        aff = k5_affected(g, P, tl, x, live)
+        if aff:
+            ctx.count("K5-class states (player state that never reaches a final state under the final strategies): not compared", len(aff))
         for s in live:
+            if s in aff:
+                continue
             if abs(pmr[s] - float(x[s])) > tol:
                 ctx.violation("state %d: 'probability under minimal reward' %r, induced chain reaches a final state with %s" % (s, pmr[s], x[s]),
                               r.inp(), prob_min_rew=pmr)
 
 
+def k5_affected(g, P, tl, x, live):
+    """known finding K5: a PLAYER state with two or more actions from which, under the final strategies, no final state
+    is ever reached (its true 'probability under minimal reward' is 0) can keep a stale diagnostic copied, in an early
+    sweep when all expected rewards still tied, from a successor it does not follow in the end; the stale value then
+    flows to every state whose induced chain passes through it. Returns those states (they are not compared)."""
+    stale = set(s for s in live if g["players"][s] != PR and len(tl[s]) >= 2 and x[s] == 0)
+    if not stale:
+        return set()
+    aff = set(stale)
+    changed = True
+    while changed:
+        changed = False
+        for s in live:
+            if s not in aff and any(p != 0 and d in aff for p, d in P[s]):
+                aff.add(s); changed = True
+    return aff
+
+
+K5_WITNESS = dict(players=[PR, P2, PR, PR, PR], rewards=[0, 0, 0, 0, 1],
+                  transition_list=[[(0.5, 1), (0.5, 3)], [("c", 1), ("a", 2)], [(1, 4)], [(1, 3)], [(1, 3)]], final_states=[3])
+
+
+def known_k5(ctx):
+    """explicit witness of K5 (pruning off): Player 2 at state 1 ends up looping on 'c' (reward 0) for ever, so it never
+    reaches the final state, but reports 1 - copied from state 2 in the first sweep, when both actions still tied at 0"""
+    res = impl.run_cases([dict(op="solve", game=enc(K5_WITNESS), prune=False)], tag="c14k")[0]
+    if "ok" not in res:
+        ctx.violation("K5 witness: solve failed: %s" % str(res)[:200], dict(game=enc(K5_WITNESS), prune=False, op="solve"))
+        return
+    out = dec(res["ok"])
+    if out[0][1] == ["c"] and (abs(out[6][1]) > 1e-9 or abs(out[6][0] - 0.5) > 1e-9):
+        what = ("a Player-2 state whose final strategy is a zero-reward self-loop reports 'probability under minimal reward' %r "
+                "(initial state %r); following the final strategies it reaches the final state with probability 0 (initial state 1/2)"
+                % (out[6][1], out[6][0]))
+        if any(k.get("id") == "K5" for k in ctx.known_witnesses()):
+            ctx.known_hits.append(("K5", what))
+        else:
+            ctx.violation(what, dict(game=enc(K5_WITNESS), prune=False, op="solve"))
+
+
 def run(ctx):
+    known_k5(ctx)
     games = [(gen_games.FIG55, gen_games.FIG55_META)] + sc.corpus_games() + gen_games.pattern_games(3)
     games += gen_games.mixed_games(ctx.rng, 260 if ctx.quick else 5000, 3, 9, styles=("stopping", "exact", "ties"))
     games += gen_games.extra_families(ctx.rng, games, 12 if ctx.quick else 150)
